@@ -122,8 +122,8 @@ def flow(run):
         n_combos = sum(1 for _ in open(combos))
         status = {}
         for l in open(os.path.join(run.dir, "main.cases.txt")):
-            _, _, outs = core.split_case(l)
-            k = re.sub(r"@\d+", "", _status(outs))
+            kind, _, outs = core.split_case(l)
+            k = re.sub(r"@\d+", "", _status(outs)) if kind in ("mem", "file") else kind
             status[k] = status.get(k, 0) + 1
         run.cov.setdefault("extra", {})["schedules"] = {"combos": n_combos, "per_combo": [per_full, per_probe], "preemption_bound": pb,
                                                         "status_counts": status}
